@@ -241,6 +241,10 @@ func (sg *scenGen) genCall(slotsRead []int, slotWrite int, legacy bool) Call {
 			c.A = sg.anyBuf()
 		}
 		c.Slot = slotWrite
+		if sg.prop != "C04" && r.P(40) {
+			c.Corrupt = 1 + r.Intn(60) // a hand-assembled Patch (outside C04's stated domain)
+			sg.faults["hand_assembled_patch"]++
+		}
 		if sg.slotBuf == nil {
 			sg.slotBuf = map[int]int{}
 		}
